@@ -103,3 +103,72 @@ package idxfile
 //gvc:  sink ReadAt requires next: arg1 == s.off32Start + 4 * (s.count - remaining) && len(arg0) == min(remaining * 4, len(buf))
 //gvc:  ensures bound: err == nil ==> 0 <= n64 && n64 <= s.count
 //gvc:end
+
+// ---- LazyIndex iterators (C10: prefix enumeration and ordered iteration
+// answer from inside the tables only). entryAt, hashAtPos, offset and crc32
+// read entry pos of their table and require 0 <= pos < count; every iterator
+// owes that at each call (the iterator invariant: its window lies inside the
+// table), so an iterator can never answer from the bytes behind a table.
+//gvc:func (*LazyIndex).hashAtPos
+//gvc:  props C10 C53
+//gvc:  theory int
+//gvc:  opt coarse
+//gvc:  opt frame args
+//gvc:  opt safety
+//gvc:  requires wf: wf_lazy(s)
+//gvc:  requires pos: 0 <= pos && pos < s.count
+//gvc:  requires idx: idx != nil
+//gvc:  sink ReadAt requires name: arg1 == s.namesStart + pos * s.hashSize && len(arg0) == s.hashSize
+//gvc:end
+
+//gvc:func (*LazyIndex).entryAt
+//gvc:  props C10 C53
+//gvc:  theory int
+//gvc:  opt coarse
+//gvc:  opt frame args
+//gvc:  requires wf: wf_lazy(s)
+//gvc:  requires pos: 0 <= pos && pos < s.count
+//gvc:  requires idx: idx != nil
+//gvc:end
+
+//gvc:func (*lazyPrefixIter).Next
+//gvc:  props C10 C53
+//gvc:  theory int
+//gvc:  opt coarse
+//gvc:  opt frame args
+//gvc:  requires window: it.idx != nil ==> it.s != nil && wf_lazy(it.s) && 0 <= it.pos && it.end <= it.s.count
+//gvc:end
+
+//gvc:func (*scannerEntryIter).Next
+//gvc:  props C10 C53
+//gvc:  theory int
+//gvc:  opt coarse
+//gvc:  opt frame args
+//gvc:  requires window: it.idx != nil ==> it.s != nil && wf_lazy(it.s) && 0 <= it.pos
+//gvc:end
+
+//gvc:func (*revEntryIter).Next
+//gvc:  props C10 C53
+//gvc:  theory int
+//gvc:  opt coarse
+//gvc:  opt frame args
+//gvc:  requires window: it.idx != nil && it.rev != nil ==> it.s != nil && wf_lazy(it.s) && 0 <= it.pos
+//gvc:end
+
+// EntriesWithPrefix: the iterator handed out is positioned inside the fanout
+// bucket of prefix[0]: lo <= pos <= end == fanout[prefix[0]] <= count, so its
+// window satisfies the requirement of lazyPrefixIter.Next; the binary search
+// reads names of the bucket only and terminates.
+//gvc:func (*LazyIndex).EntriesWithPrefix
+//gvc:  props C10 C53
+//gvc:  theory int
+//gvc:  opt coarse
+//gvc:  opt frame args
+//gvc:  results it err
+//gvc:  requires wf: wf_lazy(s) && s.idx != nil
+//gvc:  requires fanout: forall(b, 0, 256, s.fanout[b] <= s.count) && forall(b, 0, 255, s.fanout[b] <= s.fanout[b + 1])
+//gvc:  loop 1 invariant search: lo <= bsLo && bsLo <= bsHi && bsHi <= hi && hi <= s.count && 0 <= lo && len(buf) == s.hashSize
+//gvc:  loop 1 decreases bsHi - bsLo
+//gvc:  sink ReadAt requires name: arg1 == s.namesStart + mid * s.hashSize && lo <= mid && mid < hi && len(arg0) == s.hashSize
+//gvc:  ensures window: err == nil && len(prefix) > 0 && typeis(it, "lazyPrefixIter") && field(it, "lazyPrefixIter.idx") != nil ==> field(it, "lazyPrefixIter.s") == s && 0 <= field(it, "lazyPrefixIter.pos") && field(it, "lazyPrefixIter.end") <= s.count
+//gvc:end
